@@ -1,5 +1,5 @@
-From Coq Require Import List NArith ZArith Permutation.
-From SK Require Import lib.LGraph lib.StrJoin model.C08_Model proof.C08_Spec proof.C08_Faithful proof.C08_Nauty proof.C08_SigFun proof.C08_Sound proof.C08_Invariant proof.C08_Value proof.C08_GraphSig proof.C08_Auts proof.C08_GenIdem proof.C08_Select.
+From Coq Require Import List NArith ZArith Permutation Relations.
+From SK Require Import lib.LGraph lib.StrJoin model.C08_Model proof.C08_Spec proof.C08_Faithful proof.C08_Nauty proof.C08_SigFun proof.C08_Sound proof.C08_Invariant proof.C08_Value proof.C08_GraphSig proof.C08_Auts proof.C08_GenIdem proof.C08_Select proof.C08_Orbits.
 Import ListNotations.
 
 (** 1. Faithfulness: the canonical graph is the input relabelled by a map that is injective on its nodes;
@@ -229,3 +229,17 @@ Theorem C08_nauty_order_only_exact : forall (D : Type) (digest : str -> D) (g h 
    (digest (graph_sig_label (strip_std g)) = digest (graph_sig_label (strip_std h)) <-> iso_cov (strip_std g) (strip_std h))).
 Proof. exact nauty_order_only_exact. Qed.
 Print Assumptions C08_nauty_order_only_exact.
+
+(** 12. compute_orbits (canonical_form(return_orbits=True); model [nauty_orbits], a union-find over the reported
+        permutations): the orbits partition the node set, and two nodes lie in one orbit exactly when they are linked
+        by a chain of pairs (best_i, q_i), q a reported permutation - by 9 each such pair is the image of a node under
+        an automorphism, and every automorphism contributes its pairs. *)
+Theorem C08_nauty_orbits : forall g : graph, NoDup (node_ids g) ->
+  Permutation (concat (nauty_orbits g)) (node_ids g) /\
+  (forall c x y, In c (nauty_orbits g) -> In x c -> In y c ->
+     clos_refl_sym_trans N (fun a b => exists q, In q (snd (nauty_acc g)) /\ In (a, b) (combine (nauty_perm g) q)) x y) /\
+  (forall x y, In x (node_ids g) -> In y (node_ids g) ->
+     clos_refl_sym_trans N (fun a b => exists q, In q (snd (nauty_acc g)) /\ In (a, b) (combine (nauty_perm g) q)) x y ->
+     exists c, In c (nauty_orbits g) /\ In x c /\ In y c).
+Proof. exact nauty_orbits_spec. Qed.
+Print Assumptions C08_nauty_orbits.
